@@ -51,7 +51,7 @@ def _parenthesize(parentheses: str, elements) -> str:
 def _try_sort(iterable):
     try:
         return sorted(iterable)
-    except TypeError:
+    except Exception:  # noqa: BLE001  # sorting is cosmetic; comparison may raise anything, e.g. Decimal vs nan
         return iterable
 
 
